@@ -270,7 +270,7 @@ class ProtocolContext:
             self._cmd_tx_count = 1
 
         elif not isinstance(self._state, WantRply):  # IsInIdle, IsInactive
-            self._cmd = self._qos = None
+            self._cmd = self._qos = self._fut = None
             self._cmd_tx_count = 0  # was: = None
 
         assert isinstance(self.is_sending, bool)  # TODO: remove
